@@ -16,7 +16,8 @@ RULE = ("Discounted POMDP specs with and without absorbing states (absorbing sta
         "1-5 BPI iterations / 1-30 gradient steps. Oracle: episodic cross-product evaluation by linear solve AND by "
         "iterating the evaluation operator (must agree), hidden-node forward algorithm for history probabilities. "
         "Non-trivial: >=2 nodes, some action row with two positive entries and some history on which executed and "
-        "defined probabilities are both in (0,1); distinct by spec hash.")
+        "defined probabilities are both in (0,1); distinct by spec hash."
+        ' Also: 3-D node strategies, gapped-integer labels, small mostly unobservable POMDPs in which two different actions coincide in one state.')
 ASSUMPTIONS = ["BPI's per-iteration monotonicity is observed as a prefix relation between runs with iterations=k and "
                "k+1 under one seed (no hook needed)", "reference evaluation trusted only when its two routes agree to 1e-9"]
 TOL = 1e-8
